@@ -237,6 +237,17 @@ def run_cases(reqs, binary=None, nproc=None, shard_timeout_s=1800, label="", iso
             results.update(res)
     log(f"[worker] {label} {len(reqs)} cases in {time.time()-t0:.1f}s on {nshards} workers")
     missing = [r["id"] for r in reqs if r["id"] not in results]
+    if missing and len(missing) <= 50:       # a response lost in the pipe protocol: ask again, alone, before giving up
+        log(f"[worker] {label} {len(missing)} cases without a response, re-running them alone: {missing[:3]}")
+        lost = set(missing)
+        for r in reqs:
+            if r["id"] in lost:
+                r1, _, err1 = _run_shard(binary, [r], 120)
+                if r1 and r1[0].get("id") == r["id"]:
+                    results[r["id"]] = r1[0]
+                elif err1:
+                    results[r["id"]] = {"id": r["id"], "events": [], "end": classify_death(err1)}
+        missing = [r["id"] for r in reqs if r["id"] not in results]
     if missing:
         raise Broken(f"worker produced no response for {len(missing)} cases, e.g. {missing[:3]}")
     return results
